@@ -134,3 +134,19 @@ pub open spec fn exp_defaults_ok(w1: Seq<Factor>, w: Seq<Factor>, j: int) -> boo
 pub open spec fn kept(w1: Seq<Factor>, w: Seq<Factor>) -> bool {
     forall|c: Carrier, s: Source, d: Dest, st: Step| (#[trigger] find_spec(w1, c, s, d, st)) is Some ==> find_spec(w, c, s, d, st) == find_spec(w1, c, s, d, st)
 }
+pub proof fn lemma_in_avail_step(cs: Seq<Energy>, n: int, c: Carrier)
+    requires 0 <= n < cs.len(),
+    ensures in_avail(cs.take(n + 1), c) == (in_avail(cs.take(n), c) || (!(cs[n] is Out) && e_carrier(cs[n]) == c)),
+{
+    let a = cs.take(n + 1); let b = cs.take(n);
+    if in_avail(a, c) {
+        let j = choose|j: int| 0 <= j < a.len() && !((#[trigger] a[j]) is Out) && e_carrier(a[j]) == c;
+        if j < n { assert(b[j] == a[j]); assert(in_avail(b, c)); } else { assert(a[j] == cs[n]); }
+    }
+    if in_avail(b, c) {
+        let j = choose|j: int| 0 <= j < b.len() && !((#[trigger] b[j]) is Out) && e_carrier(b[j]) == c;
+        assert(a[j] == b[j]);
+    }
+    if !(cs[n] is Out) && e_carrier(cs[n]) == c { assert(a[n] == cs[n]); }
+}
+pub open spec fn view_cset(s: HashSet<Carrier>) -> Set<Carrier> { s@ }
